@@ -176,7 +176,14 @@ func (g *Generator) generateMockFieldAssignments(
 	message *protogen.Message,
 	varName string,
 ) {
+	// The example table is keyed by the message's name inside its file: Outer.Inner for a nested declaration
 	messageName := string(message.Desc.Name())
+	for parent := message.Desc.Parent(); parent != nil; parent = parent.Parent() {
+		if _, isMessage := parent.(protoreflect.MessageDescriptor); !isMessage {
+			break
+		}
+		messageName = string(parent.Name()) + "." + messageName
+	}
 
 	// Recursive message types: a message that is already being populated further up the
 	// call stack is left at its zero value, otherwise generation would never terminate.
